@@ -4,6 +4,9 @@ import (
 	"fmt"
 	"go/ast"
 	"go/token"
+	"go/types"
+
+	"golang.org/x/tools/go/packages"
 	"pigeonverif/internal/load"
 	"regexp"
 	"sort"
@@ -502,6 +505,16 @@ func c08StaticLeader(c *Ctx) {
 			}
 		}
 	}
+	// The known finding F19 is recorded for the choice the pinned tree makes: the smallest name in plain string order.
+	// Another order among the candidates (a comparator, a case-folded or length-first sort, the largest name) moves the
+	// defect to other grammars - those that enter a component through the rule that used to be chosen - and is a
+	// violation of its own, reported under its own construct.
+	if byName != "" {
+		if order := leaderOrder(bp, fd, scope); order != "" {
+			r.Bad("C08-h", "G.builder.findLeader:leader-among-several-candidates:order="+order, "", g.Where(fd.Pos()),
+				"the leader is chosen among the candidates by "+order+", not by the plain string order of the names: grammars whose left-recursive component is entered through the rule with the smallest name - which grows its seed correctly today - get another leader and lose every match beyond the first step of the recursion")
+		}
+	}
 	r.Check(byName == "", "C08-h", "G.builder.findLeader:leader-among-several-candidates", "", g.Where(fd.Pos()), "no choice among several candidates by name",
 		"the leader of a component is the candidate with the smallest name ("+byName+"), whichever rule the grammar enters the component through: `S <- B !.; B <- A 'x' / 'y'; A <- B / 'z'` enters through B, A is made the leader, and `yx` - which B <- B 'x' / 'z' 'x' / 'y' matches - is rejected")
 }
@@ -537,6 +550,10 @@ func memoOffInLeftRecursiveRules(c *Ctx, v *variants.Variant, rule string) {
 			has := false
 			var conj []string
 			for _, f := range factsAt(fd.Body, ce.Pos()) {
+				// a guard held in a local defined once (`memoizing := p.memoize && !…leftRecursive`) is its definition
+				if cnt[f] == 1 && defs[f] != "" {
+					f = minParens(defs[f])
+				}
 				conj = append(conj, splitTop(f, "&&")...)
 			}
 			for _, cj := range conj {
@@ -565,4 +582,77 @@ func memoOffInLeftRecursiveRules(c *Ctx, v *variants.Variant, rule string) {
 	ok := len(gs) == 2 && nOK == 2
 	def := lrFlag
 	r.Check(ok, rule, "T.parseExprWrap:memo-off-in-LR-rules", vn, v.Where(fd.Pos()), "both guards p.memoize && !isLeftRecursion", fmt.Sprintf("isLeftRecursion := %s; guards %v", def, gs))
+}
+
+// leaderOrder describes the order in which findLeader (or a helper in scope) ranks the candidate names when it is not
+// the plain string order: "" for `k < leader` in a minimum loop, sort.Strings / slices.Sort / slices.Sorted /
+// slices.Min over the names; otherwise the comparator or the sorting helper.
+func leaderOrder(bp *packages.Package, fd *ast.FuncDecl, scope map[*ast.FuncDecl]bool) string {
+	order := ""
+	var visit func(h *ast.FuncDecl, depth int)
+	visit = func(h *ast.FuncDecl, depth int) {
+		if h == nil || h.Body == nil || depth > 2 {
+			return
+		}
+		for _, ce := range callsIn(h.Body) {
+			switch cn := callName(ce); cn {
+			case "sort.Slice", "sort.SliceStable", "slices.SortFunc", "slices.SortStableFunc", "slices.MinFunc", "slices.MaxFunc", "sort.Sort", "sort.Stable", "slices.SortedFunc", "slices.SortedStableFunc":
+				order = "the comparator of " + cn + " in " + h.Name.Name
+			case "slices.Max", "max":
+				if h == fd {
+					order = "the largest name (" + cn + ")"
+				}
+			}
+		}
+		// the helper that produces the ranked list whose first element is taken: `return sortedNames(leaders)[0]`, or
+		// through a local
+		if h == fd {
+			ast.Inspect(h.Body, func(n ast.Node) bool {
+				ix, ok := n.(*ast.IndexExpr)
+				if !ok || nospace(ix.Index) != "0" {
+					return true
+				}
+				x := stripParens(ix.X)
+				if id, ok := x.(*ast.Ident); ok {
+					if d := singleDefinition(h.Body, id.Name); d != nil {
+						x = stripParens(d)
+					}
+				}
+				if ce, ok := x.(*ast.CallExpr); ok {
+					if id, ok := ce.Fun.(*ast.Ident); ok {
+						if hd := load.FuncDecl(bp, "", id.Name); hd != nil && hd != fd {
+							visit(hd, depth+1)
+						}
+					}
+				}
+				return true
+			})
+		}
+		// a minimum loop with another comparison than `k < best`
+		ast.Inspect(h.Body, func(n ast.Node) bool {
+			be, ok := n.(*ast.BinaryExpr)
+			if !ok || h != fd {
+				return true
+			}
+			if be.Op == token.GTR || be.Op == token.GEQ {
+				if _, isIdent := be.X.(*ast.Ident); isIdent {
+					if _, isIdent2 := be.Y.(*ast.Ident); isIdent2 && isStringExpr(bp, be.X) && isStringExpr(bp, be.Y) {
+						order = "the comparison " + nospace(be)
+					}
+				}
+			}
+			return true
+		})
+	}
+	visit(fd, 0)
+	return order
+}
+
+func isStringExpr(p *packages.Package, e ast.Expr) bool {
+	t := p.TypesInfo.TypeOf(e)
+	if t == nil {
+		return false
+	}
+	b, ok := t.Underlying().(*types.Basic)
+	return ok && b.Info()&types.IsString != 0
 }
